@@ -15,7 +15,7 @@ from ..model import leaftypes as LT
 from ..model import trees as TM
 
 LEVEL = "exploration"
-TECHNIQUE = "runtime monitoring: pure-Python tree/leaf reference model decides verdict and bindings of isinstance(tree, PyTree[L]) under generated prior contexts; metamorphic laws PyTree[L]==PyTree[PyTree[L]], bare PyTree, top-level None; leaf types incl. array types that are PyTree nodes, structured PyTrees (structure names tracked by the model) and NamedTuple classes; identity arm (mutated / temporary trees); annotations built while checking was off"
+TECHNIQUE = "runtime monitoring: pure-Python tree/leaf reference model decides verdict and bindings of isinstance(tree, PyTree[L]) under generated prior contexts; metamorphic laws PyTree[L]==PyTree[PyTree[L]], bare PyTree, top-level None; leaf types incl. array types that are PyTree nodes, structured PyTrees (structure names tracked by the model) and NamedTuple classes; identity arm (mutated / temporary trees); annotations built while checking was off; two shards run the whole comparison in a python -O / -OO interpreter"
 LEVEL_TEXT = (
     "Held on every generated (prior context, leaf type, tree) explored: trees to depth 4 over tuple/list/dict/None/"
     "namedtuple/registered node/empty containers, 13 leaf types incl. unions, X|Y, tuples of arrays. Sampling, not proof."
@@ -85,7 +85,9 @@ CATALOGUE = [
 
 
 def shards(tier):
-    return [{"i": i} for i in range(NSHARDS)]
+    # shards 2 and 10 run in an interpreter started with -O / -OO (asserts stripped, __debug__ False): an explicit
+    # isinstance(x, PyTree[L]) means the same there
+    return [dict({"i": i}, **({"python_flags": [{2: "-O", 10: "-OO"}[i]]} if i in (2, 10) else {})) for i in range(NSHARDS)]
 
 
 def required_counters(tier):
@@ -99,7 +101,7 @@ def required_counters(tier):
         "law.nested": 500,
         "law.bare": 500,
         "bindings_compared": 1000,
-        "L.pep604": 50, "L.arrnode": 100, "L.ntclass": 100, "structure_name_bound_earlier": 100, "annotation_built_while_checking_disabled": 100, "hostile_values": 16, "identity_cases": 16,
+        "L.pep604": 50, "L.arrnode": 100, "L.ntclass": 100, "structure_name_bound_earlier": 100, "annotation_built_while_checking_disabled": 100, "hostile_values": 16, "identity_cases": 16, "shards_under_python_O": 2, "cases_under_python_O": 1000,
     }
 
 
@@ -366,9 +368,15 @@ def run_shard(rec, seed, shard, tier):
         real.toplevel_probes(rec, None, "after the hostile prelude")
     GT.ensure_registered()
     run_identity(rec, random.Random(f"{seed}/C08/{shard['i']}/identity"))
+    if shard.get("python_flags"):
+        rec.count("shards_under_python_O")
+        if __debug__:
+            rec.inconclusive.append(f"shard {shard} was meant to run under {shard['python_flags']} but __debug__ is True")
     for k in range(CASES[tier]):
         key = f"{seed}/C08/{shard['i']}/{k}"
         run_case(rec, random.Random(key), rngkey=key)
+        if shard.get("python_flags"):
+            rec.count("cases_under_python_O")
         if k % 1000 == 500:
             run_hostile(rec)
     rec.sample({"catalogue": [LT.show(L) for L in CATALOGUE]})
